@@ -156,8 +156,8 @@ mod imp {
             runs.push(roll_run!(0, fi, xi, &yi, a, f64));
         }
         // iterator body: VecDeque<Option<f64>>
-        { let dq: VecDeque<Option<f64>> = xo.iter().cloned().collect();
-          let dy: VecDeque<Option<f64>> = yo.iter().cloned().collect();
+        { let dq: VecDeque<Option<f64>> = vh::wrapped_deque(&xo);
+          let dy: VecDeque<Option<f64>> = vh::wrapped_deque(&yo);
           runs.push(roll_run!(0, fi, dq, &dy, a, f64)); }
         join(runs)
     }
@@ -274,7 +274,7 @@ mod imp {
         let x32: Vec<f32> = encv(xs);
         let xo32: Vec<Option<f32>> = encv(xs);
         let xi: Vec<Option<i32>> = encv(xs);
-        let dq: VecDeque<Option<f64>> = xo.iter().cloned().collect();
+        let dq: VecDeque<Option<f64>> = vh::wrapped_deque(&xo);
         let (vf, vo, v32, vo32, vi): (Vec<f64>, Vec<Option<f64>>, Vec<f32>, Vec<Option<f32>>, Vec<Option<i32>>) =
             (encv(vals), encv(vals), encv(vals), encv(vals), encv(vals));
         macro_rules! g {
@@ -304,7 +304,7 @@ mod imp {
         let xf: Vec<f64> = xs.to_vec();
         let xo: Vec<Option<f64>> = encv(xs);
         let xi: Vec<Option<i32>> = encv(xs);
-        let dq: VecDeque<Option<f64>> = xo.iter().cloned().collect();
+        let dq: VecDeque<Option<f64>> = vh::wrapped_deque(&xo);
         let (sf, so, si): (Vec<f64>, Vec<Option<f64>>, Vec<Option<i32>>) = (encv(scs), encv(scs), encv(scs));
         let mut runs = vec![];
         runs.push(run(0, aggq(&xf, qs, &sf)));
@@ -391,7 +391,7 @@ mod imp {
     pub fn map_runs(xs: &[f64], op: &MOp) -> Vec<Cell> {
         let xf: Vec<f64> = xs.to_vec();
         let xo: Vec<Option<f64>> = encv(xs);
-        let dq: VecDeque<Option<f64>> = xo.iter().cloned().collect();
+        let dq: VecDeque<Option<f64>> = vh::wrapped_deque(&xo);
         let mut runs = vec![];
         runs.push(run(0, map_op(&xf, op, false)));
         runs.push(run(0, map_op(&xo, op, true)));
@@ -404,7 +404,7 @@ mod imp {
     /// vdiff needs `Sub` on the element type: f64 directly and through a VecDeque
     pub fn vdiff_runs(xs: &[f64], n: i32, fill: Option<f64>) -> Vec<Cell> {
         let xf: Vec<f64> = xs.to_vec();
-        let dq: VecDeque<f64> = xf.iter().cloned().collect();
+        let dq: VecDeque<f64> = vh::wrapped_deque(&xf);
         join(vec![
             run(0, guarded(AssertUnwindSafe(|| collect_len(xf.vdiff(n, fill))))),
             run(0, guarded(AssertUnwindSafe(|| collect_len(dq.vdiff(n, fill))))),
